@@ -17,9 +17,11 @@
 (*   sequence of quarter ticks 0..4 aligned with tags, ftags / fscs |->    *)
 (*   tags / scs without the members outside the vocabulary,                *)
 (*   vprov, qprov |-> how the vocabulary tags and the query tags (encode   *)
-(*   arguments, list members) are WRITTEN: "fresh" or "explicit_defaults"  *)
+(*   arguments, list members) are WRITTEN: "fresh", "explicit_defaults"    *)
 (*   (every optional field of the term passed explicitly with its default  *)
-(*   value).  Equal tags stay equal however they were written, so Req does *)
+(*   value), "extras_ab" / "extras_ba" (the term carries two extra         *)
+(*   attributes, given in this or that order; both sides carry them or     *)
+(*   neither does).  Equal tags stay equal however they were written, so Req does *)
 (*   not mention vprov / qprov]                                            *)
 (* A "pair" case:  [kind |-> "pair", cls |-> class number 1..8,            *)
 (*   x, y |-> field-choice vectors, px, py |-> provenances] -- two objects *)
@@ -65,6 +67,10 @@ LawOOV(v, ts)    == /\ Classify(v, Filtered(v, ts)) = Classify(v, ts)
 LawOOVPred(v, ts, sc) == \A k \in DOMAIN v : PredAllowed(v, Filtered(v, ts), FilteredSc(v, ts, sc), k) = PredAllowed(v, ts, sc, k)
 LawClassifyIsHit(v, ts) == Classify(v, ts) = <<>> \/ Multilabel(v, ts)[Classify(v, ts)[1] + 1] = 1
 
+\* ways of writing a term (see Provs below): carrying extra attributes is content, their order is not
+HasExtras(mode) == mode \in {"extras_ab", "extras_ba"}
+SameContent(m1, m2) == HasExtras(m1) = HasExtras(m2)        \* two ways of writing that leave equal objects equal
+
 EncClauses == {"EncodeIffEqual", "EncodeIffObservedEqual", "DecodeEncodeIdentity", "ClassifyFirstHit", "MultilabelIndicator",
                "PredictionScores", "OutOfVocabularyNoInfluence"}
 
@@ -79,7 +85,8 @@ EncClauses == {"EncodeIffEqual", "EncodeIffObservedEqual", "DecodeEncodeIdentity
 (***************************************************************************)
 EncClauseHolds(cl, c, r) ==
     LET v == c.vocab  ts == c.tags IN
-    CASE cl = "EncodeIffEqual"       -> Len(r.enc) = NU /\ \A u \in 1..NU : r.enc[u] = Encode(v, u)
+    \* (equal universe tags are equal objects only when vocabulary and queries are written with the same content)
+    CASE cl = "EncodeIffEqual"       -> SameContent(c.vprov, c.qprov) /\ Len(r.enc) = NU /\ \A u \in 1..NU : r.enc[u] = Encode(v, u)
       \* the same clause on OBSERVED equality: qeq[u][k] = (query tag u == vocabulary tag k), veq[k][l] likewise inside the
       \* vocabulary.  For a vocabulary of (observably) distinct tags a tag goes to index i iff it == the i-th tag.
       [] cl = "EncodeIffObservedEqual" ->
@@ -166,7 +173,13 @@ Frozen(cls) == cls = 1                                   \* Term: ConfigDict(fro
 \* Term's 4th field (an extra attribute) can be added by an update but not removed, so it is never the donor field
 DonorFields(cls) == IF cls = 1 THEN {1, 2, 3, 5, 6} ELSE DOMAIN FieldDom[cls]
 Explicit == Prov("explicit_defaults", 0)
-Provs(cls) == {Fresh, Prov("deep_copy", 0), Prov("revalidate", 0), Explicit} \cup
+\* Term accepts extra attributes (extra = "allow"; the other seven classes do not).  extras_ab / extras_ba: every Term of
+\* the object carries the same two extra attributes, GIVEN in the order a, b or b, a.  == compares the extras as a
+\* mapping, so the order is only a way of writing; carrying extras at all is content (such a term is not equal to the
+\* bare one).
+ExtrasAB == Prov("extras_ab", 0)
+ExtrasBA == Prov("extras_ba", 0)
+Provs(cls) == {Fresh, Prov("deep_copy", 0), Prov("revalidate", 0), Explicit, ExtrasAB, ExtrasBA} \cup
               {Prov(m, f) : m \in {"copy_update"} \cup (IF Frozen(cls) THEN {} ELSE {"assign"}), f \in DonorFields(cls)}
 Donor(cls, x, p) == IF p.f = 0 THEN x ELSE [x EXCEPT ![p.f] = (x[p.f] % FieldDom[cls][p.f]) + 1]
 \* the instance __dict__ (and whatever was memoised in it) is carried by these derivations, not by re-validation
